@@ -47,6 +47,16 @@ def repo_hash():
     return hh.hexdigest()[:16]
 
 
+def harness_hash():
+    """sha256 over the harness sources: cached runs are tied to the code that produced them."""
+    hh = hashlib.sha256()
+    d = os.path.dirname(os.path.abspath(__file__))
+    for f in sorted(os.listdir(d)):
+        if f.endswith(".py"):
+            hh.update(open(os.path.join(d, f), "rb").read())
+    return hh.hexdigest()[:8]
+
+
 def seed():
     try:
         return int(os.environ.get("VERIF_SEED", "1"))
